@@ -13,6 +13,7 @@ from .common import raising_site
 
 from ndn.app_support.light_versec import compile_lvs, Checker, SemanticError, LvsModelError
 import ndn.app_support.light_versec.binary as bny
+from ndn.encoding import DecodeError
 
 LEVEL = 'fault_enumeration'
 
@@ -373,7 +374,7 @@ def corruptions(model, rng, limit):
         out.append((f'node{i}.signer-to-unreachable-ok', mut2))
     if len(out) > limit:
         first = [o for o in out if 'unreachable' in o[0]]      # (also the swapped-record cases)
-        keep = [o for o in out if ('parent' in o[0] or o[0].startswith('version')) and o not in first]
+        keep = [o for o in out if ('parent' in o[0] or o[0].startswith('version') or o[0].endswith('.two')) and o not in first]
         rest = [o for o in out if o not in keep and o not in first]
         keep = keep[:max(0, limit // 2 - len(first) // 2)]
         out = first + keep + rng.sample(rest, min(len(rest), max(0, limit - len(first) - len(keep))))
@@ -399,6 +400,28 @@ def check_binary(ctx, rng, clean):
                 ctx.event('corruption-not-encodable')
                 continue
             broken = oracle_broken(m2, wire)
+            if label.endswith('.two') and 'option-shape' in broken:
+                # the same doubly-set option as ANOTHER encoder may write it: its two elements in the other order (Tag before Value).
+                # However the decoder feels about the order, a model with such an option is not accepted
+                try:
+                    i_, ei_, ci_, oi_ = [int(x) for x in __import__('re').findall(r'\d+', label)[:4]]
+                    o_ = m2.nodes[i_].p_edges[ei_].cons_sets[ci_].options[oi_]
+                    if o_.value is not None and o_.tag is not None:
+                        ve_ = rc.enc_tlv(bny.TypeNumber.COMPONENT_VALUE, bytes(o_.value))
+                        te_ = rc.enc_tlv(bny.TypeNumber.PATTERN_TAG, rc.enc_nni(o_.tag))
+                        if wire.count(ve_ + te_) == 1:
+                            swapped = wire.replace(ve_ + te_, te_ + ve_)
+                            ctx.event('doubly-set-option-in-non-canonical-element-order')
+                            try:
+                                Checker.load(swapped, lvs.USER_FNS)
+                                ctx.report('broken-model-accepted:option-shape:noncanonical-order', 'a ConstraintOption with Tag AND Value set (written Tag first) loaded without error',
+                                           {'schema': text, 'corruption': label + ' (elements swapped)', 'model': swapped if len(swapped) < 700 else swapped[:350]})
+                            except (LvsModelError, DecodeError):
+                                ctx.event('rejected-with-model-error')
+                            except Exception as e_:   # noqa
+                                ctx.event(f'observation:noncanonical-option-refused-with-{type(e_).__name__}')
+                except Exception:   # noqa
+                    pass
             field = label.split('=')[0].split('.')[-1] if '=' in label else label.split('.')[-1]
             w = {'schema': text, 'corruption': label, 'broken_rules': sorted(set(broken)), 'model': wire if len(wire) < 700 else wire[:350]}
             ctx.case((text, label), nontrivial=True, sample=w if ctx.evaluations % 900 == 11 else None)
@@ -571,7 +594,8 @@ def run(ctx):
         ctx.need_event('deep-model-broken')
     need = ['clean-schema-accepted', 'rejected-with-schema-error', 'corruption-breaking', 'corruption-benign', 'rejected-with-model-error',
             'query-terminated', 'signed-rule-pattern-schema-accepted', 'corruption-with-unreachable-node', 'model-built-via-load', 'model-built-via-constructor',
-            'model-built-via-constructor-on-an-object-accepted-before']
+            'model-built-via-constructor-on-an-object-accepted-before',
+            'doubly-set-option-in-non-canonical-element-order']
     for k in need:
         ctx.need_event(k)
     ctx.assumptions = ['documented schema error = SemanticError (from compile_lvs or Checker()), documented model error = LvsModelError',
